@@ -47,6 +47,7 @@ pub fn sim_case(max_trace: usize, max_machines: usize, zero: bool, with_pps: boo
             hand_queue,
             pad_lines,
             line_style,
+            repeat: 0,
         })
         .boxed()
 }
